@@ -42,17 +42,16 @@ META = {
 
 
 def run(ctx):
+    binp = ctx.go_build()
+    consts = _crash.gen_consts(ctx, binp)      # coq/Gen/CrashConsts.v from the current tree
     ctx.prove()
     model = ctx.model_ready(["Crash/Check.vo"])
-    binp = ctx.go_build()
-    consts = _crash.gen_consts(ctx, binp)
-    model = ctx.model_ready(["Crash/Check.vo"]) and model
     if ctx.replay:
         rp = json.load(open(ctx.replay))
         hs = [v["history"] for v in rp.get("violations", []) if "history" in v]
         cases = ctx.run_json([binp, "run", "1000000"], input="\n".join(json.dumps(h) for h in hs) + "\n")
     else:
-        nh, nchild = (24, 12) if ctx.tier == "quick" else (400, 400)
+        nh, nchild = (16, 8) if ctx.tier == "quick" else (400, 400)
         cases = ctx.run_json([binp, "c15", str(nh), str(nchild)], timeout=3000)
     if not model:
         ctx.tie(False)
